@@ -7,6 +7,7 @@ drive a storage device (`device/hal/storage.c`: the only code that assigns
 REPAIRED code (fixes/15): `side_by_side_tiff_start` stores the states returned by the
 inner writer's `set` and `start` into the inner writer's `state`, as the HAL does for a
 top-level device; without that the inner `Tiff::stop` never finalises the file.
+(fixes/19): it removes an existing `metadata.json` before creating the new one.
 
 Assumed (not modelled): the parent directory exists and is writable (`validate`),
 `fs::create_directory` succeeds, `(path / "data.tif")` is `path ++ "/data.tif"` (the uri does
@@ -52,7 +53,9 @@ def sxsStart (s : Sxs) : Sxs × DevState × List Eff :=
   let e1 := [Eff.mkdir path]
   -- props.external_metadata_json.nbytes is never 0 after a copy
   let metadataPath := path ++ sMetadataJson
-  let e2 := [Eff.create metadataPath, Eff.write metadataPath 0 s.metadata, Eff.close metadataPath]
+  -- repaired (fixes/19): the previous metadata.json is removed first (file_create does not truncate)
+  let e2 := [Eff.remove metadataPath, Eff.create metadataPath, Eff.write metadataPath 0 s.metadata,
+    Eff.close metadataPath]
   let videoPath := path ++ sDataTif
   let props : Props := { uri := videoPath, metadata := some s.metadata,
                          scaleMilliX := s.scaleMilliX, scaleMilliY := s.scaleMilliY }
@@ -156,6 +159,7 @@ def Files.put (w : Files) (p : Bytes) (c : Bytes) : Files :=
 
 def Files.apply (w : Files) : Eff → Files
   | .mkdir _ => w
+  | .remove p => w.filter (fun e => !(e.1 == p))
   | .create p => match w.get p with | some _ => w | none => w.put p []
   | .write p off buf => w.put p (pwrite ((w.get p).getD []) off buf)
   | .close _ => w
